@@ -33,12 +33,12 @@ for d in sorted(glob.glob(os.path.join(V, 'seeded', 'C*_*'))):
         verdict = 'MISSED'
     rows.append('| %s | %s | %s | %s |' % (sid, what[:170], needs[:170], verdict))
 out = ['## 9. Seeded changes and which checks catch them', '',
-       'One hundred and sixty changes to eqsig written by sub-agents that saw only the text of one property (never `/verif`), each',
+       'Two hundred changes to eqsig written by sub-agents that saw only the text of one property (never `/verif`), each',
        'confirmed in a scratch worktree: applies to `/repo` HEAD, the 63 tests pass with it, its demonstration fails with it and passes',
-       'without it (`harness/confirm_seeds.sh`; `seeded/<id>/{patch.diff, demo.py, meta.json}`). Four rounds of two per property: `_1`, `_2`',
+       'without it (`harness/confirm_seeds.sh`; `seeded/<id>/{patch.diff, demo.py, meta.json}`). Five rounds of two per property: `_1`, `_2`',
        '(first session), `_3`, `_4` ("a mechanism different from the ones already used"), `_5`, `_6` ("a KIND of mechanism not in the list at',
        'all: boundary conditions, index arithmetic, equality branches, option combinations, ordering effects, rounding shortcuts, default',
-       'propagation"), `_7`, `_8` (given the list of clauses already targeted: "another clause, entry point or mechanism"). Each was run against the quick tier of its property\'s check in a scratch worktree through `EQSIG_REPO`',
+       'propagation"), `_7`, `_8` and `_9`, `_10` (given the list of clauses already targeted: "another clause, entry point or mechanism"). Each was run against the quick tier of its property\'s check in a scratch worktree through `EQSIG_REPO`',
        '(`harness/sweep_seeds.sh`, results in `seeded/RESULTS.tsv`); the table gives the first reporting site of the final sweep. After',
        'round 2, 15 of 80 were first missed; after round 3, 10 of the 40 new ones; after round 4, 9 of the 40 new ones (C04_8, C06_8, C07_8, C08_7,',
        'C08_8, C09_7, C11_7, C12_7, C17_7), and ten more were caught by a broken source tie only, with no failing input. All are caught now (C07_8 as a broken',
@@ -46,7 +46,11 @@ out = ['## 9. Seeded changes and which checks catch them', '',
        '`gen_fa_spectrum(p2_plus / n)` (C06), trap=False at object level and the constructor source array re-used (C08), windows whose binary64 peak is',
        'exactly / one ulp around the 0.025 g gate (C09), int16/int32/float32-stored records with swings near the dtype range (C11, C12 — which exposed',
        'a genuine defect, fix 871d565), integer / list / float32 records for array-level `remove_poly` (C17), and `guarded_pure` now overwrites the',
-       'returned arrays before the second call (memo aliasing, C09_8). What was added for the earlier rounds (see 7.3):',
+       'returned arrays before the second call (memo aliasing, C09_8). After round 5, 4 of the 40 new ones were missed (C01_9, C02_9, C02_10, C08_10) and',
+       'four more were caught by a broken source tie only; added for them: a second `AccSignal.response_series` call after the periods were changed through',
+       'the setter (C01), two batches in a row sharing xi, dt, count and end periods, and shift invariance of the spectra on records longer than 2^15',
+       'samples (C02), very weak half spectra for `fas2values` (C06), `trap=np.True_` (C08), record lengths at which a float-step `np.arange` miscounts',
+       '(C09), the explicit fractions 0.0 and 1.0 (C10), resample → `reset_values` → resample on one object (C14). What was added for the earlier rounds (see 7.3):',
        'object read → change → read-again histories (C03, C07, C08, C09, C10), purity/repeatability wrappers (`core.guarded_pure`) and',
        'non-float64 storage (C01, C02, C06, C08, C09, C11, C13, C17, C18, C19), long-record × many-period batches and object-level refinement',
        '(C02), non-integer refinement factors (C03), weak-motion amplitudes (C08, C09, C19), list/tuple containers (C08), record lengths k·1000',
